@@ -99,7 +99,7 @@ def generate(rng, tier):
         yield {"op": "c21 frame " + h, "kind": "frame"}
     for spec, _ in negatives(rng):
         yield spec_case(spec, "neg")
-    reps = 25 if quick else 400
+    reps = 25 if quick else 2500
     for cls in L.BODY_CLASSES:
         for _ in range(reps):
             yield spec_case(L.gen_spec(rng, cls))
